@@ -92,8 +92,8 @@ func run(c *vk.Ctx) {
 	if err2 == nil {
 		defer trunc2.Close()
 	}
-	nCases := c.Pick(120, 600)
-	sem.RunCases(c, base, "mem", nCases, gen.Options{}, 4, 8, func(i int, r *rand.Rand, p *sem.Prepared, contextual []*openfgav1.TupleKey) {
+	nCases := c.Pick(200, 900)
+	sem.RunCases(c, base, "mem", nCases, gen.Options{WideEvery: 3, AlgebraEvery: 4}, 4, 8, func(i int, r *rand.Rand, p *sem.Prepared, contextual []*openfgav1.TupleKey) {
 		oneCase(c, i, r, p, contextual, servers, []*drive.Srv{trunc, trunc2})
 	})
 }
